@@ -21,8 +21,13 @@ def dig_state(at):
 
 def handler(job):
     sets = job["datasets"]   # list of collections; each collection = list of diagrams (lists of [b, d])
+    cache = {}
     def data(i):
-        return [np.array(d, dtype=float).reshape(-1, 2) for d in sets[i]]
+        # ONE set of array objects per data set for the whole history (a caller who keeps his diagrams and calls the estimator repeatedly):
+        # a call that writes into its arguments changes what the later calls see
+        if i not in cache:
+            cache[i] = [np.array(d, dtype=float).reshape(-1, 2) for d in sets[i]]
+        return cache[i]
     evs = []
     if job["kind"] == "landscaper":
         kw = dict(hom_deg=job["hom_deg"], num_steps=job["num_steps"], flatten=bool(job["flatten"]))
